@@ -43,4 +43,8 @@ PROPS = {
     "C17": P("exploration", GEN_RULE, 2500, 80000, [("MC_Elem.tla", "MC_Elem_C17_quick.cfg")], [("MC_Elem.tla", "MC_Elem_C17_thorough.cfg")], count_all=True),
     "C18": P("exploration", GEN_RULE, 500, 12000, [("MC_Elem.tla", "MC_Elem_C15_quick.cfg")], [("MC_Elem.tla", "MC_Elem_C15_thorough.cfg")], count_all=True),
     "C19": P("model_checking", GEN_RULE, 2000, 60000, *O("C19"), count_all=True),
+    "C20": P("exploration", GEN_RULE, 2000, 60000, [("MC_Conc.tla", "MC_Conc_safe.cfg")], [("MC_Conc.tla", "MC_Conc_safe.cfg"), ("MC_Conc.tla", "MC_Conc_safe3.cfg")], count_all=True, race=True),
 }
+
+for _t in ("quick", "thorough"):
+    PROPS["C20"][_t]["neg_models"] = [("MC_Conc.tla", "MC_Conc_negctl.cfg")]
